@@ -173,6 +173,15 @@ func getFieldDecoder(pInfo parentInfos, field reflect.StructField, index int, by
 			return decoders, needValidate, nil
 		}
 
+		// The JSON decoder promotes the fields of an embedded struct that has no JSON name of its
+		// own into the enclosing object: 'required' and 'default' must look them up there, not
+		// under the Go name of the embedded struct.
+		if field.Anonymous {
+			if name, _ := head(field.Tag.Get(jsonTag), ","); name == "" {
+				newParentJSONName = pInfo.JSONName
+			}
+		}
+
 		pIdx := pInfo.Indexes
 		for i := 0; i < el.NumField(); i++ {
 			if el.Field(i).PkgPath != "" && !el.Field(i).Anonymous {
